@@ -45,10 +45,6 @@ fn header_lines(text: &[u8]) -> Vec<&[u8]> {
 
 fn read_back(text: &[u8]) -> ReadBack {
     let mut rb = ReadBack { header: None, parsed: None, eager: vec![], eager_end: "Err", lazy: vec![], lazy_end: "Err", panicked: false };
-    if hdr::unmodelled(&header_lines(text)) {
-        rb.header = Some("U".into());
-        return rb;
-    }
     // eager path
     let mut reader = vcf::io::Reader::new(text);
     let h = match g(|| reader.read_header().map_err(|_| ())) {
@@ -91,7 +87,7 @@ fn read_back(text: &[u8]) -> ReadBack {
 
 fn obs_of(rb: &ReadBack) -> Option<String> {
     let hd = rb.header.clone()?;
-    if hd == "U" || hd == "Err" || hd == "Panic" {
+    if hd == "Err" || hd == "Panic" {
         return Some(hd);
     }
     let e = rb.eager.iter().map(rec_str).collect::<Vec<_>>().join("^");
@@ -132,8 +128,8 @@ pub fn run_file(c: &Case) -> Obs {
         let ver = format!("{}.{}", spec.ff.0, spec.ff.1);
         let hash = recs.first().map(|r| r.chrom.starts_with('#')).unwrap_or(false);
         match &rb.parsed {
-            None => Err((if hash { "file-first-record-chrom-hash-read-as-header-line" } else { "file-written-header-unparsable" }.to_string(), shown)),
-            Some(h2) if *h2 != h => Err(("file-header-roundtrip-differs".to_string(), shown)),
+            None => Err((if hash { "file-first-record-chrom-hash-read-as-header-line" } else if hdr::meta_values_list_before_43(&spec) { "header-meta-values-list-before-4.3-unparsable" } else { "file-written-header-unparsable" }.to_string(), shown)),
+            Some(h2) if *h2 != h => Err((if hdr::meta_values_list_before_43(&spec) { "header-meta-values-list-before-4.3-unparsable" } else { "file-header-roundtrip-differs" }.to_string(), shown)),
             Some(_) => {
                 let mut v = Ok(());
                 if rb.eager_end != "Eof" || rb.lazy_end != "Eof" || rb.eager.len() != recs.len() || rb.lazy.len() != recs.len() {
@@ -170,7 +166,7 @@ pub fn run_ftxt(c: &Case) -> Obs {
         return Obs::fail("Panic", "ftxt-reader-panic", &c.args[0]);
     }
     match obs_of(&rb) {
-        Some(o) => { let nt = o != "U"; Obs::ok(o, nt) }
+        Some(o) => Obs::ok(o, true),
         None => Obs::fail("-", "ftxt-structured-other-outside-criterion", &c.args[0]),
     }
 }
@@ -342,6 +338,8 @@ const FT_HEADERS: &[&str] = &[
     "##fileformat=VCFv4.3\n##INFO=<ID=SVLEN,Number=A,Type=Integer,Description=\"d\">\n#CHROM\tPOS\tID\tREF\tALT\tQUAL\tFILTER\tINFO\n",
     "##fileformat=VCFv4.10\n##INFO=<ID=AC,Number=7,Type=String,Description=\"d\">\n#CHROM\tPOS\tID\tREF\tALT\tQUAL\tFILTER\tINFO\tFORMAT\ts0\n",
     "##fileformat=VCFv5.0\n#CHROM\tPOS\tID\tREF\tALT\tQUAL\tFILTER\tINFO\tFORMAT\ts0\n",
+    "##fileformat=VCFv4.3\n##META=<ID=Assay,Type=String,Number=.,Values=[WholeGenome, Exome]>\n##SAMPLE=<ID=Blood,Genomes=Germline,Description=\"d\">\n##PEDIGREE=<ID=c1,Father=f1>\n#CHROM\tPOS\tID\tREF\tALT\tQUAL\tFILTER\tINFO\tFORMAT\ts0\n",
+    "##fileformat=VCFv4.2\r\n##PEDIGREE=<Child=c1,Mother=m1>\r\n##x=<ID=a,k=\"v\">\r\n##x=<ID=b>\r\n#CHROM\tPOS\tID\tREF\tALT\tQUAL\tFILTER\tINFO\r\n",
     "##fileformat=VCFv4.3\n#CHROM\tPOS\tID\tREF\tALT\tQUAL\tFILTER\tINFO",
     "##fileformat=VCFv4.3\n",
     "",
